@@ -187,3 +187,22 @@ Example ex_squash :
   squash_edges Qmerge [mkE 3 5 2 0; mkE 0 3 2 0; mkE 0 10 2 1; mkE 7 10 2 0]
   = Ok [mkE 0 5 2 0; mkE 7 10 2 0; mkE 0 10 2 1].
 Proof. vm_compute. reflexivity. Qed.
+
+(* sort_idempotent / sort_fixed_point_sorted: [ex_tables] has no comparator ties, and sorting
+   its sorted form again changes nothing *)
+From TskVerif Require Import C07.IdemProofs.
+Example ex_no_key_ties : no_key_ties ex_tables.
+Proof.
+  split; [|split].
+  - vm_compute. repeat constructor; simpl; intuition congruence.
+  - vm_compute. repeat constructor; simpl; intuition congruence.
+  - intros a b Ha Hb. simpl in Ha, Hb.
+    repeat (destruct Ha as [<- | Ha]; [repeat (destruct Hb as [<- | Hb]; [vm_compute; intros; auto; try discriminate|]); destruct Hb|]).
+    destruct Ha.
+Qed.
+
+Example ex_idempotent :
+  match table_sort Qmerge None ex_tables with
+  | Ok t1 => Some (J_eqb (j_res (table_sort Qmerge None t1)) (j_res (Ok t1)))
+  | _ => None end = Some true.
+Proof. vm_compute. reflexivity. Qed.
